@@ -20,6 +20,8 @@ pub mod c13;
 pub mod c14;
 pub mod c15;
 pub mod c17;
+pub mod c19;
+pub mod c20;
 pub mod trainc;
 pub mod dictops;
 pub mod common;
@@ -125,6 +127,8 @@ pub fn run(id: &str, opts: &Opts) -> Option<Report> {
         "C16" => c14::run_c16(opts),
         "C17" => c17::run_c17(opts),
         "C18" => c17::run_c18(opts),
+        "C19" => c19::run(opts),
+        "C20" => c20::run(opts),
         _ => return None,
     })
 }
@@ -146,6 +150,8 @@ pub fn replay(id: &str, path: &Path) -> Option<i32> {
         "C14" | "C16" => c14::replay(id, path),
         "C15" => c15::replay(path),
         "C17" | "C18" => c17::replay(id, path),
+        "C19" => c19::replay(path),
+        "C20" => c20::replay(path),
         _ => None,
     }
 }
